@@ -218,13 +218,22 @@ class SpawnProcess(multiprocessing.context.SpawnProcess):
                     msg += ': possibly out of memory'
                 raise OSError(exitcode, msg) from exc
 
-        self._logger_queue_.put(None)
         self._result_and_error_.close()
         self._result_and_error_ = None
         if error is not None:
             self._future_.set_exception(error)
         else:
             self._future_.set_result(result)
+
+        # End the log stream only after the child process has exited.
+        # By then everything it has logged has been flushed into the queue's pipe
+        # (the child joins its queue feeder thread on exit), hence the end marker
+        # is guaranteed to come after the last record. Ending the stream as soon as
+        # the result arrives would lose the records still in flight, and would
+        # leave the child unable to flush (and exit) once the pipe is full.
+        while self.exitcode is None:
+            time.sleep(0.001)
+        self._logger_queue_.put(None)
 
     @staticmethod
     def _finalize(logger_thread, q):
